@@ -81,6 +81,9 @@ class NativeEval(object):
             return self.env[n.id]
         if n.id in ("True", "False", "None"):
             return {"True": True, "False": False, "None": None}[n.id]
+        mod = self.natives.get("$module")
+        if mod is not None and hasattr(mod, n.id):
+            return _num(getattr(mod, n.id))
         raise NotEvaluable("name " + n.id)
 
     def e_Attribute(self, n, pol):
